@@ -100,6 +100,7 @@ type Engine struct {
 	curLockOwner *lockOwner
 	lockChecks bool
 	unclassified map[string]bool
+	outerDefers  [][]*deferEntry // deferred calls of the frames around the callee being inlined
 	unwinding    int // > 0 while deferred calls are being run (the remaining deferred unlocks still run after a panic there)
 	idSeen       map[string]int
 	guardedWrites map[string]string // lock-guarded components this function writes (itself or through callee contracts)
